@@ -1,8 +1,11 @@
 package wallet
 
 import (
+	"bytes"
 	"encoding/binary"
 	"strings"
+
+	"go.sia.tech/core/types"
 
 	"go.sia.tech/coreutils/internal/vapi"
 )
@@ -15,7 +18,7 @@ func verifEntropy(name string) (e [16]byte) {
 
 // VerifH_C20_roundtrip: for all 2^128 entropies decode(encode(e)) == e.
 //
-//verif:harness prop=C20 tier=quick require=roundtrip
+//verif:harness prop=C20 tier=quick require=roundtrip bounds="all 2^128 entropies"
 func VerifH_C20_roundtrip() {
 	e := verifEntropy("e")
 	phrase := encodeBIP39Phrase(&e)
@@ -30,7 +33,7 @@ func VerifH_C20_roundtrip() {
 // nibble matches; then the entropy is the reference packing and re-encoding
 // yields the same phrase.
 //
-//verif:harness prop=C20 tier=quick require=accepted,rejected
+//verif:harness prop=C20 tier=quick require=accepted,rejected nowitness=accepted bounds="all 2048^12 word tuples; SHA-256 uninterpreted (so the 'accepted' witness, whose checksum nibble the solver chooses, is not replayable natively)"
 func VerifH_C20_iff() {
 	var w [12]uint64
 	words := make([]string, 12)
@@ -64,4 +67,113 @@ func VerifH_C20_iff() {
 	} else {
 		vapi.Reach("rejected")
 	}
+}
+
+// VerifH_C20_derive: KeyFromSeed(seed,i) = Ed25519(BLAKE2b(seed || LE64(i)))
+// for every seed and every 64-bit index; SeedFromPhrase = BLAKE2b(entropy).
+//
+//verif:harness prop=C20 tier=quick require=derived bounds="all 2^256 seeds x all 2^64 indices"
+func VerifH_C20_derive() {
+	seed := vapi.Bytes32("seed")
+	idx := vapi.U64("index")
+	key := KeyFromSeed(&seed, idx)
+	// reference, written independently
+	buf := make([]byte, 40)
+	copy(buf, seed[:])
+	for k := 0; k < 8; k++ {
+		buf[32+k] = byte(idx >> (8 * k))
+	}
+	h := vapi.HashBytes(buf)
+	ref := types.NewPrivateKeyFromSeed(h[:])
+	vapi.Assert("derive.key", bytes.Equal(key, ref))
+	// determinism: a second evaluation agrees
+	key2 := KeyFromSeed(&seed, idx)
+	vapi.Assert("derive.deterministic", bytes.Equal(key, key2))
+	// the seed is not clobbered
+	seed2 := seed
+	_ = KeyFromSeed(&seed, idx)
+	vapi.Assert("derive.seed-intact", seed2 == seed)
+	vapi.Reach("derived")
+}
+
+// VerifH_C20_seed: SeedFromPhrase(encode(e)) = BLAKE2b(e) for all entropies.
+//
+//verif:harness prop=C20 tier=quick require=seeded bounds="all 2^128 entropies"
+func VerifH_C20_seed() {
+	e := verifEntropy("e")
+	phrase := encodeBIP39Phrase(&e)
+	var seed [32]byte
+	err := SeedFromPhrase(&seed, phrase)
+	vapi.Assert("seed.noerror", err == nil)
+	want := vapi.HashBytes(e[:])
+	vapi.Assert("seed.value", seed == want)
+	var seed2 [32]byte
+	_ = SeedFromPhrase(&seed2, phrase)
+	vapi.Assert("seed.deterministic", seed == seed2)
+	vapi.Reach("seeded")
+}
+
+// VerifH_C20_count: phrases with 0..11 or 13 words from the list are rejected.
+//
+//verif:harness prop=C20 tier=quick require=rejected bounds="word counts 0..11 and 13, all words"
+func VerifH_C20_count() {
+	n := vapi.Int("n", 0, 13)
+	vapi.Assume(n != 12)
+	words := make([]string, n)
+	for i := range words {
+		w := vapi.U64("w")
+		vapi.Assume(w < 2048)
+		words[i] = bip39EnglishWordList[w]
+	}
+	var got [16]byte
+	err := decodeBIP39Phrase(&got, strings.Join(words, " "))
+	vapi.Assert("count.rejected", err != nil)
+	var seed [32]byte
+	vapi.Assert("count.seed-rejected", SeedFromPhrase(&seed, strings.Join(words, " ")) != nil)
+	vapi.Reach("rejected")
+}
+
+// VerifH_C20_fresh: NewSeedPhrase encodes exactly the 16 bytes drawn from the
+// random source (so it always decodes, and to those bytes).
+//
+//verif:harness prop=C20 tier=quick require=fresh bounds="all 2^128 outputs of the random source"
+func VerifH_C20_fresh() {
+	phrase := NewSeedPhrase()
+	var got [16]byte
+	err := decodeBIP39Phrase(&got, phrase)
+	vapi.Assert("fresh.decodes", err == nil)
+	var seed [32]byte
+	vapi.Assert("fresh.seed", SeedFromPhrase(&seed, phrase) == nil)
+	vapi.Assert("fresh.seed-value", seed == vapi.HashBytes(got[:]))
+	vapi.Reach("fresh")
+}
+
+// VerifH_C20_reject: a 12-token phrase one of whose tokens is an arbitrary
+// printable string of 1..4 bytes that is not in the word list is rejected,
+// wherever the token sits and whatever the other eleven words are.
+//
+//verif:harness prop=C20 tier=quick require=rejected bounds="foreign token of 1..4 printable ASCII bytes at any of the 12 positions; other 11 words arbitrary"
+func VerifH_C20_reject() {
+	n := vapi.Int("len", 1, 4)
+	tok := make([]byte, n)
+	for i := range tok {
+		tok[i] = vapi.U8("tok")
+		vapi.Assume(tok[i] > 0x20 && tok[i] < 0x7f)
+	}
+	_, inList := wordMap[string(tok)]
+	vapi.Assume(!inList)
+	pos := vapi.Int("pos", 0, 11)
+	words := make([]string, 12)
+	for i := range words {
+		if i == pos {
+			words[i] = string(tok)
+			continue
+		}
+		words[i] = bip39EnglishWordList[vapi.Search("w", 2048)]
+	}
+	phrase := strings.Join(words, " ")
+	var got [16]byte
+	err := decodeBIP39Phrase(&got, phrase)
+	vapi.Assert("reject.foreign-token", err != nil)
+	vapi.Reach("rejected")
 }
